@@ -95,6 +95,9 @@ def _work(task):
                     C = truth[tc]
                     judge(f"(({ta}) & ({tb})) | ({tc})", lambda: d.op("|", d.op("&", a, b), c), [(x and y) or z for x, y, z in zip(A, B, C)], arb)
                     judge(f"~((({ta}) | ({tb})) | ({tc}))", lambda: d.op("~", d.op("|", d.op("|", a, b), c)), [not (x or y or z) for x, y, z in zip(A, B, C)], arb)
+                    judge(f"({tc}) | ~(({ta}) & ({tb}))", lambda: d.op("|", c, d.op("~", d.op("&", a, b))), [z or not (x and y) for x, y, z in zip(A, B, C)], arb)
+                    judge(f"~(({ta}) & ({tb})) & ({tc})", lambda: d.op("&", d.op("~", d.op("&", a, b)), c), [(not (x and y)) and z for x, y, z in zip(A, B, C)], arb)
+                    judge(f"({tc}) & ~(({ta}) | ({tb}))", lambda: d.op("&", c, d.op("~", d.op("|", a, b))), [z and not (x or y) for x, y, z in zip(A, B, C)], arb)
                     judge(f"(({ta}) | ({tb})) & ~({tc})", lambda: d.op("&", d.op("|", a, b), d.op("~", c)), [(x or y) and not z for x, y, z in zip(A, B, C)], arb)
     return {"fails": fails, "n": n, "raised": raised, "samples": samples}
 
